@@ -40,13 +40,17 @@ def _stores(fnode):
 
 
 def _pure_chain(e):
-    """Name / attribute chain / constant: an expression that can be re-read without effect."""
+    """Name / attribute chain / constant, or `len()` of one: an expression that can be re-read without effect."""
+    if isinstance(e, ast.Call) and isinstance(e.func, ast.Name) and e.func.id == "len" and len(e.args) == 1 and not e.keywords:
+        e = e.args[0]
     while isinstance(e, ast.Attribute):
         e = e.value
     return isinstance(e, (ast.Name, ast.Constant))
 
 
 def _base(e):
+    if isinstance(e, ast.Call) and e.args:
+        e = e.args[0]
     while isinstance(e, ast.Attribute):
         e = e.value
     return e.id if isinstance(e, ast.Name) else None
